@@ -622,6 +622,9 @@ fn br_s(o: &String) -> &str { o.as_str() }
 gen_runner!(run_bb, &'static [u8], &'static [u8], own_b, br_b, own_b, br_b, |x: &[u8]| Val::B(x.to_vec()), |x: &[u8]| Val::B(x.to_vec()));
 gen_runner!(run_uu, u64, u64, own_u, br_u, own_u, br_u, |x: u64| Val::U(x), |x: u64| Val::U(x));
 gen_runner!(run_sb, &'static str, &'static [u8], own_s, br_s, own_b, br_b, |x: &str| Val::B(x.as_bytes().to_vec()), |x: &[u8]| Val::B(x.to_vec()));
+// key and value of DIFFERENT fixed width (8 vs variable, variable vs 8): the value subtrees are B-trees keyed by the VALUE type
+gen_runner!(run_ub, u64, &'static [u8], own_u, br_u, own_b, br_b, |x: u64| Val::U(x), |x: &[u8]| Val::B(x.to_vec()));
+gen_runner!(run_su, &'static str, u64, own_s, br_s, own_u, br_u, |x: &str| Val::B(x.as_bytes().to_vec()), |x: u64| Val::U(x));
 
 fn main() {
     silence_panics();
@@ -635,7 +638,7 @@ fn main() {
     let mk = |n: &str| std::fs::File::create(n).unwrap();
     let (mut f_cases, mut f_out, mut f_rep, mut f_intent) = (mk("cases.txt"), mk("impl_out.txt"), mk("impl_rep.txt"), mk("intent.txt"));
     for id in 0..n {
-        let (kt, vt) = *r.pick(&[('b', 'b'), ('u', 'u'), ('s', 'b'), ('b', 'b')]);
+        let (kt, vt) = *r.pick(&[('b', 'b'), ('u', 'u'), ('s', 'b'), ('b', 'b'), ('u', 'b'), ('s', 'u')]);
         let ps = *r.pick(&[512usize, 512, 1024, 2048, 4096]);
         // the last two programs are the large ones (thousands of values under one key); they come last so that
         // the first reported disagreement is in a small program
@@ -653,6 +656,8 @@ fn main() {
         let res = catch(|| match (kt, vt) {
             ('b', 'b') => run_bb(&mut p, &mut log, &mut st),
             ('u', 'u') => run_uu(&mut p, &mut log, &mut st),
+            ('u', 'b') => run_ub(&mut p, &mut log, &mut st),
+            ('s', 'u') => run_su(&mut p, &mut log, &mut st),
             _ => run_sb(&mut p, &mut log, &mut st),
         });
         if let Err(m) = res {
